@@ -56,8 +56,9 @@ type regSys struct {
 	// onStep runs after every transition, also while replaying (check=false):
 	// history monitors rebuild their state here and report only when check is set.
 	backdoor  ociregistry.Interface // the registry underneath a wrapper, for operations made behind the wrapper's back
-	depth     int                   // search depth of the state being produced (set by vstate.BFS)
-	opFilter  func(op Op) bool      // optional restriction of the enabled operations in the current state
+	preKey    string
+	depth     int              // search depth of the state being produced (set by vstate.BFS)
+	opFilter  func(op Op) bool // optional restriction of the enabled operations in the current state
 	onStep    func(s *regSys, op Op, out Outcome, check bool) (tainted bool)
 	noOracle  bool // the reference model only tracks (follows the implementation); no model comparison
 	sub       string
@@ -150,6 +151,10 @@ func (s *regSys) enabledAll() []Op {
 		case "committed", "cancelled":
 			// reuse of a finished session's ID: whatever the registry answers (the statement is silent),
 			// content committed earlier must stay intact (checked by the sweep)
+			if s.cfg.CancelAfterCommit && !s.cfg.FinishedOps && up.State == "committed" {
+				// the documented defer idiom: Cancel after a successful Commit is a no-op
+				ops = append(ops, Op{K: "Cancel", H: h})
+			}
 			if s.cfg.FinishedOps && len(up.Buf) < s.cfg.MaxUpload+2 {
 				ops = append(ops, Op{K: "Resume", H: h, Off: "zero"}, Op{K: "Resume", H: h, Off: "-1"}, Op{K: "Write", H: h, Piece: "ZZ"})
 				if up.State == "committed" {
@@ -322,7 +327,14 @@ func (s *regSys) exec(op Op) (out Outcome) {
 // SetDepth is called by the search before a checked transition.
 func (s *regSys) SetDepth(d int) { s.depth = d }
 
+// PreSweepKey is the state key taken after the checked operation and before the read sweep that
+// follows it: successors are rebuilt by replaying the history WITHOUT sweeps, so the key a history is
+// remembered under must not contain what the sweep itself left behind in the registry (a cache filled
+// by reading would otherwise make "history + Reads" look already visited and never be expanded).
+func (s *regSys) PreSweepKey() string { return s.preKey }
+
 func (s *regSys) Apply(op Op, check bool) (tainted bool) {
+	s.preKey = ""
 	fpBase := fmt.Sprintf("%s/%s/%s", s.prop, s.mode, op.K)
 	sub := s.sub
 	if sub == "" {
@@ -385,6 +397,7 @@ func (s *regSys) Apply(op Op, check bool) (tainted bool) {
 			}
 		}
 	}
+	s.preKey = s.Key()
 	if s.r.Guard(sub, fpBase+"/sweep", s.caseOf(nil), func() {
 		queries := s.queries
 		// content committed through upload sessions is not part of the fixed universe: query it too
@@ -560,10 +573,18 @@ func c02Check(r *vcore.Run) vcore.Coverage {
 		run("immutable/chunked", true, true, d, c02Seeds(), 0, 0)
 	}
 	// small closed universe explored to fixpoint: every reachable state, any history length
-	mini := alphabetConfig{Repos: []string{"r"}, Blobs: []int{1, 2}, Manifests: []int{0, 1, 3, 8}, Tags: []string{"t"}, Deletes: true, UntaggedToo: true}
+	mini := alphabetConfig{Repos: []string{"r"}, Blobs: []int{1, 2}, Manifests: []int{0, 1, 3, 8}, Tags: []string{"t", "u"}, Deletes: true, UntaggedToo: true, ReadsOp: true}
 	cfgOverride = &mini
 	run("mutable/mini-fixpoint", false, false, 40, nil, 0, 10*time.Minute)
 	run("immutable/mini-fixpoint", true, false, 40, nil, 0, 10*time.Minute)
+	// content the image specification singles out: the "{}" blob and an artifact whose config and layer are
+	// the empty descriptor are a blob and references like any other
+	uw, bw, mw := newUniverse().withDualRole().withWellKnown()
+	wk := alphabetConfig{Repos: []string{"r"}, Blobs: []int{1, bw}, Manifests: []int{0, mw}, Tags: []string{"t"}, Deletes: true, UntaggedToo: true}
+	cfgOverride = &wk
+	u = uw
+	run("mutable/well-known-content-fixpoint", false, false, 40, nil, 0, 10*time.Minute)
+	run("immutable/well-known-content-fixpoint", true, false, 40, nil, 0, 10*time.Minute)
 	r.Notes["runs"] = notes
 	r.Assume = []string{
 		"universe: 2 repositories (+1 never used), 3 blobs, 9 manifests (opaque, image, image+subject, index, index with mistyped entry, malformed, missing reference, zero-size descriptor, same bytes under another media type), 2 tags, invalid name/tag, 1 upload session of <= 3 bytes",
@@ -579,7 +600,7 @@ func c02Replay(r *vcore.Run, sub string, raw json.RawMessage) {
 	if err := json.Unmarshal(raw, &c); err != nil {
 		panic(err)
 	}
-	u := newUniverse().withDualRole()
+	u, _, _ := newUniverse().withDualRole().withWellKnown() // superset of every universe the runs use
 	s := newMemSys(r, "C02", u, c02Alphabet(u, "quick", true), c.Mode == "immutable-tags")
 	for _, op := range c.History {
 		if s.Apply(op, true) {
